@@ -82,6 +82,11 @@ func genTCPConn(r *Rng, cfg []cfgKey, focus string) tcpConnSpec {
 	if sel < probeW+postW+dialW {
 		sp.TFinFirst = false // only a relayed connection can wait for the target's half-close
 	}
+	// a target that speaks again long after the handshake timeout, to a client that is silent and
+	// keeps the connection open: nothing of the handshake phase (deadlines) may linger
+	if !sp.Fin && !sp.TFinFirst && r.Chance(18) {
+		sp.TLate = [2]int{[]int{1, 500, 22000}[r.Intn(3)], int(r.U64() % 1000000)}
+	}
 	if localKind {
 		sel = 100 // an honest connection; what is tested is where it may go
 		if sp.Validate && !tcpKindPublic(sp.AKind) {
@@ -149,6 +154,9 @@ func genTCPConn(r *Rng, cfg []cfgKey, focus string) tcpConnSpec {
 		}
 		sp.Chunks, sp.Coalesce = nil, false
 	}
+	if sp.Kind != "honest" || sp.Corrupt != 0 || !sp.ConnectOK || sp.TFinFirst || sp.Fin || sp.AKind == 9 || (sp.AKind >= 20 && sp.AKind < 30 && sp.AKind != 21) || (sp.Validate && !tcpKindPublic(sp.AKind)) || sp.C < 0 {
+		sp.TLate = [2]int{}
+	}
 	return sp
 }
 
@@ -173,7 +181,7 @@ func tcpFailingTarget(ctx *Ctx) {
 		cfg := genCfg(r, 2, 4)
 		pick := cfg[r.Intn(len(cfg))]
 		sp := tcpConnSpec{Kind: "honest", ConnectOK: true, Fin: true, Seed: uint32(r.U64()), C: pick.C, S: pick.S,
-			Chunks: [][2]int{{[]int{1, 100, 5000, 16383}[r.Intn(4)], int(r.U64() % 1000000)}, {16383, int(r.U64() % 1000000)}, {9000, int(r.U64() % 1000000)}},
+			Chunks:   [][2]int{{[]int{1, 100, 5000, 16383}[r.Intn(4)], int(r.U64() % 1000000)}, {16383, int(r.U64() % 1000000)}, {9000, int(r.U64() % 1000000)}},
 			Coalesce: r.Bool(), TOut: [2]int{[]int{0, 10, 3000}[r.Intn(3)], int(r.U64() % 1000000)}, TFirst: r.Bool(),
 			TFailAfter: []int{1, 99, 100, 4096, 16383, 16384, 20000, 30000}[r.Intn(8)]}
 		sp.Key = fmt.Sprintf("%d/%d", sp.C, sp.S)
@@ -323,8 +331,8 @@ func tcpMonitors(ctx *Ctx, prop string, cs *tcpCaseSpec, i int, sp *tcpConnSpec,
 		ctx.Monitor("C15/counters-exceed-wire", fmt.Sprintf("counters %+v exceed wire (sent %d, target got %d)", ob.Counters, ob.RawSent, ob.TargetLen), rep)
 	}
 	if ob.Status == "OK" {
-		if ob.Counters.ClientProxy != int64(ob.RawSent) || ob.Counters.ProxyTarget != int64(ob.TargetLen) || ob.Counters.TargetProxy != int64(sp.TOut[0]) {
-			ctx.Monitor("C15/counters-ne-wire", fmt.Sprintf("completed connection: counters %+v, wire: sent %d, target got %d, target sent %d", ob.Counters, ob.RawSent, ob.TargetLen, sp.TOut[0]), rep)
+		if ob.Counters.ClientProxy != int64(ob.RawSent) || ob.Counters.ProxyTarget != int64(ob.TargetLen) || ob.Counters.TargetProxy != int64(sp.TOut[0]+sp.TLate[0]) {
+			ctx.Monitor("C15/counters-ne-wire", fmt.Sprintf("completed connection: counters %+v, wire: sent %d, target got %d, target sent %d", ob.Counters, ob.RawSent, ob.TargetLen, sp.TOut[0]+sp.TLate[0]), rep)
 		}
 	}
 	// C06
@@ -365,7 +373,7 @@ func tcpMonitors(ctx *Ctx, prop string, cs *tcpCaseSpec, i int, sp *tcpConnSpec,
 	// C02
 	if ob.Status == "OK" {
 		_, payload, _ := clientWire(sp, 0)
-		tout := genBytes(sp.TOut[0], uint32(sp.TOut[1]))
+		tout := append(genBytes(sp.TOut[0], uint32(sp.TOut[1])), genBytes(sp.TLate[0], uint32(sp.TLate[1]))...)
 		if !bytes.Equal(ob.TargetGot, payload) {
 			ctx.Monitor("C02/upstream-not-intact", fmt.Sprintf("target received %d bytes (cksum %d), client sent %d (cksum %d)", len(ob.TargetGot), cksum(ob.TargetGot), len(payload), cksum(payload)), rep)
 		}
